@@ -6,6 +6,7 @@ def kindOf : String → Except String AKind
   | "leaf" => pure .leaf | "var" => pure .var | "draws" => pure .draws | "rv" => pure .rv
   | "op" => pure .op | "monteCarlo" => pure .monteCarlo | "integrate" => pure .integrate
   | "panelTraj" => pure .panelTraj | "logLogit" => pure .logLogit | "catalog" => pure .catalog
+  | "beta" => pure .beta | "betaFixed" => pure .betaFixed
   | _ => throw "bad-op"
 
 def parseNode (j : Json) : Except String ANode := do
@@ -32,6 +33,18 @@ def faultStr : Fault → String
   | .mcNoDraws => "mcNoDraws" | .mcNested => "mcNested" | .mcPanelNoTraj => "mcPanelNoTraj"
   | .intNoRv => "intNoRv" | .trajNonPanel => "trajNonPanel" | .logitKeys => "logitKeys"
   | .logitChoice => "logitChoice"
+  | .duplicateName n => s!"duplicateName:{n}"
+
+def dataFaultStr : DataFault → String
+  | .nonNumeric c => s!"nonNumeric:{c}" | .nan => "nan" | .empty => "empty"
+
+def parseCol (j : Json) : Except String ColInfo := do
+  pure { name := ← getStr j "name", numeric := ← getBool j "numeric", hasNaN := ← getBool j "hasNaN" }
+
+/-- elementary expressions have no children (hypothesis `LeafWF` of the theorems) -/
+def leafWfB (d : ADag) : Bool :=
+  d.all fun n =>
+    !(n.kind == .beta || n.kind == .betaFixed || n.kind == .rv || n.kind == .draws || n.kind == .var) || n.children.isEmpty
 
 def wfB (d : ADag) : Bool :=
   (List.range d.length).all fun k =>
@@ -51,6 +64,25 @@ def handle (j : Json) : Except String Json := do
     let db : Db := { cols, panel }
     pure (Json.mkObj [("bio", jStrs ((topAuditBio d db root).map faultStr)),
                       ("expr", jStrs ((topAuditExpr d db root).map faultStr))])
+  | "stages" =>
+    -- id assignment + audit in the order of each entry path (Audit.stagedExpr / stagedBio)
+    let d ← (← getArr j "dag").toList.mapM parseNode
+    let root ← getNat j "root"
+    let cols ← strList (← j.getObjVal? "cols")
+    let panel ← getBool j "panel"
+    if !wfB d || !leafWfB d then throw "ill-formed dag" else
+    let db : Db := { cols, panel }
+    pure (Json.mkObj [("prepare", jStrs ((prepareFaults d db root).map faultStr)),
+                      ("setid", jStrs ((setIdFaults d db root).map faultStr)),
+                      ("expr", jStrs ((stagedExpr d db root).map faultStr)),
+                      ("bio", jStrs ((stagedBio d db root false).map faultStr)),
+                      ("bio_skip", jStrs ((stagedBio d db root true).map faultStr))])
+  | "dataaudit" =>
+    let cols ← (← getArr j "cols").toList.mapM parseCol
+    let rows ← getNat j "rows"
+    let f : FrameInfo := { cols, rows }
+    pure (Json.mkObj [("new", jStrs ((dataAuditNew f).map dataFaultStr)),
+                      ("bio", jStrs ((dataAuditBio f).map dataFaultStr))])
   | "evalmissing" =>
     -- the engine semantics with the missing-data test of bioExprVariable
     let d ← DrvExpr.parseDag (← j.getObjVal? "dag")
